@@ -161,6 +161,14 @@ def check(ctx, run):
     run.oblige("C07.R3", "one-touch: price = 1 once the running maximum has reached the strike", ok, str(e_above)[:60])
     if not ok:
         run.fail(Finding("C07.R3", fi.qualname, "value when max_log_moneyness > 0: " + str(e_above)[:100], "after the barrier is hit the option is worth exactly 1", file=str(prog.modules[fi.module].path), line=fi.node.lineno))
+    # the barrier counts as reached when the running maximum EQUALS the strike (an option struck at the initial spot): payoff 1{max >= K}
+    _, e_at, _ = B.extract(prog, interp, "bs_american_binary_price", "at")
+    e_at = B.resolve_piecewise(e_at, {})
+    ok = sp.simplify(e_at - 1) == 0
+    run.oblige("C07.R3", "one-touch: price = 1 when the running maximum equals the strike (payoff is 1{max >= K})", ok, str(e_at)[:60])
+    if not ok:
+        run.fail(Finding("C07.R3", fi.qualname, "value when max_log_moneyness = 0: " + str(e_at)[:100], "with the running maximum at the strike the payoff 1 is already certain; the price must be exactly 1",
+                         file=str(prog.modules[fi.module].path), line=fi.node.lineno, case="at"))
     fi = prog.functions[B.F + "bs_lookback_price"]
     p1 = terms.get(("lookback", (), "above"))
     p0 = terms.get(("lookback", (), "below"))
